@@ -262,7 +262,6 @@ def sweep_task(task):
             a, kw, desc = M.special_call(fname, pm, mm, II, vi)
             return a, kw, desc
         kw = M.arg_variants(fname, II, tmp)[vi]
-        first = "dataset_or_model" if fname in ("omit_data", "resample_data") else None
         return (mm,), dict(kw), M.describe_kwargs(kw)
 
     try:
@@ -640,7 +639,7 @@ def replay(path: str) -> int:
     case = data["case"]
     print(json.dumps(case, indent=1)[:1500])
     if case.get("session") == "sweep":
-        r = sweep_task((case["base"], case["function"].split("+")[0] if False else case["function"], case.get("variant", 0)))
+        r = sweep_task((case["base"], case["function"], case.get("variant", 0)))
     elif case.get("session") == "plan":
         r = plan_task((case["base"], [{"f": f, "arg": a} for f, a in case["plan"]], True))
     else:
